@@ -6,6 +6,9 @@ AST (JSON-able: lists / dicts / str / int only)
   ident  = ['id', name, org]          org: None = written at the call site, k = written in the body of macro k
   var    = ident | ['par', p]         `$p<p>`
   term   = ['v', var] | ['c', int] | ['f', fname, [var..]]
+         | ['x', shape, [var..]]    nested expression (gen/c08_args.py): a shape over the holes 0.. plugged with the leaves;
+                                    shape = ['h', k] | ['k', int] | ['a', form, [shape..]], form = a Rust rendering of a
+                                    vocabulary function that says which operands stand inside a delimiter group
   cnd    = ['if', pname, [var..]] | ['let', var, fname, [var..]] | ['iflet', var, pfname, [var..]]
   item   = ['clause', rel, [term..], [cnd..]] | ['cond', cnd] | ['gen', var, gname, [var..]]
          | ['neg', rel, [term..]] | ['disj', [[item..]..]] | ['inv', m, [term..]]
@@ -36,6 +39,9 @@ def r_term(t):
         return str(t[1])
     if t[0] == "f":
         return dl._subst(dl.FUNS[t[1]][2], [r_use(x) for x in t[2]])
+    if t[0] == "x":
+        from . import c08_args
+        return c08_args.render_shape(t[1], [r_use(x) for x in t[2]])[0]
     raise ValueError(t)
 
 
@@ -122,11 +128,30 @@ def q_list(xs):
     return "[" + "; ".join(xs) + "]"
 
 
+# nested expressions: the function symbol XBASE + k of a model term denotes the k-th shape of a per-program table
+# (coq/Macros/MacroArgs.v aexp_of_term).  The table is collected while a program is rendered: xt_reset(); q_macros / q_rules; xt_table()
+XBASE = 1000
+_XT = []
+
+
+def xt_reset():
+    del _XT[:]
+
+
+def xt_table():
+    from . import c08_args
+    return q_list(c08_args.q_shape(sh) for sh in _XT)
+
+
 def q_term(t):
     if t[0] == "v":
         return "TV (%s)" % q_var(t[1])
     if t[0] == "c":
         return "TC (%d)%%Z" % t[1]
+    if t[0] == "x":
+        if t[1] not in _XT:
+            _XT.append(t[1])
+        return "TF %d %s" % (XBASE + _XT.index(t[1]), q_list(q_var(x) for x in t[2]))
     return "TF %d %s" % (dl.FUNS[t[1]][0], q_list(q_var(x) for x in t[2]))
 
 
@@ -187,14 +212,24 @@ def _fresh(name, scope):
     return name if scope == 0 else "%s_h%d" % (name, scope)
 
 
+def _base(name):
+    """the spelling an identifier had before _fresh"""
+    i = name.rfind("_h")
+    return name[:i] if i > 0 and name[i + 2:].isdigit() else name
+
+
 class Hand:
     """expands every invocation; identifiers written in a macro body get the suffix _h<k> where k numbers the
     invocation; parameters are replaced by the actuals.  Works on trees (an `expr` actual stays one node)."""
 
-    def __init__(self, prog, limit=400, leak=()):
+    def __init__(self, prog, limit=400, leak=(), capture=()):
         # leak: (macro, spelling) pairs that are NOT made fresh (a deliberately unhygienic expansion: the tie uses it to
         # check that a designed input tells sharing / capture of that local apart from the hygienic expansion)
+        # capture: (macro, spelling) pairs: the identifiers of that spelling INSIDE THE ACTUALS of an invocation of the macro
+        # become the macro's local of that spelling (another deliberately unhygienic expansion: the local captures what the
+        # call site / the enclosing macro passes in; the rest of the call site keeps its variable)
         self.leak = {(m, n) for m, n in leak}
+        self.capture = {(m, n) for m, n in capture}
         self.defs = {}
         for d in prog["macros"]:
             self.defs[d["name"]] = d        # the last definition wins, as in the implementation
@@ -217,6 +252,8 @@ class Hand:
             return ["v", self.var(t[1], env, scope)]
         if t[0] == "c":
             return t
+        if t[0] == "x":
+            return ["x", t[1], [self.var(x, env, scope) for x in t[2]]]
         return ["f", t[1], [self.var(x, env, scope) for x in t[2]]]
 
     def cnd(self, c, env, scope):
@@ -230,6 +267,13 @@ class Hand:
         d = self.defs[m]
         assert len(d["params"]) == len(acts)
         self.n += 1
+        names = [n for (m_, n) in self.capture if m_ == m]
+        if names:
+            def cap(v):
+                if v[0] == "id" and _base(v[1]) in names:
+                    return ["id", _fresh(_base(v[1]), self.n), None]
+                return v
+            acts = [["v", cap(a[1])] if a[0] == "v" else a if a[0] == "c" else [a[0], a[1], [cap(x) for x in a[2]]] for a in acts]
         return d, {p: a for (p, _), a in zip(d["params"], acts)}, self.n
 
     def items(self, its, env, scope, depth):
@@ -272,8 +316,8 @@ class Hand:
         return dict(heads=heads, body=body)
 
 
-def hand_expand(p, leak=()):
-    h = Hand(p, leak=leak)
+def hand_expand(p, leak=(), capture=()):
+    h = Hand(p, leak=leak, capture=capture)
     return dict(rels=p["rels"], macros=[], rules=[h.rule(r) for r in p["rules"]], head_macros=[])
 
 
